@@ -861,6 +861,14 @@ func (e *SpecEnv) call(x *SX) Term {
 		if pkg == nil {
 			e.bad("asptr: unknown package")
 		}
+		if args[1].Op == "ident" {
+			if tn == "bytes" {
+				return Term{"(i-val " + a.S + ")", &Sort{K: KRef, Go: types.NewPointer(types.NewSlice(types.Typ[types.Uint8]))}}
+			}
+			if uo, ok := types.Universe.Lookup(tn).(*types.TypeName); ok {
+				return Term{"(i-val " + a.S + ")", &Sort{K: KRef, Go: types.NewPointer(uo.Type())}}
+			}
+		}
 		obj := pkg.Pkg.Scope().Lookup(tn)
 		if obj == nil {
 			e.bad("asptr: unknown type %s", tn)
